@@ -1,0 +1,13 @@
+//go:build verif
+// +build verif
+
+package account
+
+import "com.tuntun.rangers/node/src/common"
+
+// VerifResetProcessCaches clears the process-global cache of the bound balance contract so
+// that a second node can be booted from an empty state inside one test process (a real node
+// process builds its genesis exactly once). Build tag "verif" only.
+func VerifResetProcessCaches() {
+	rpgContractAddress = common.Address{}
+}
